@@ -14,6 +14,7 @@ v       request variant (used by the harness only to build the HTTP request)
 rand    `-` or `<seed>:<d,d,…>` raw Int63 draws of math/rand after Seed(seed)
 
   prx <dyn|sta> <policy|-> <m>:<fd>:<mf>:<r> <ups> <script> <rand>
+  dy <m>:<fd>:<mf>:<cb> <static ups> <none|one|multi> <sources> <j|c|p> <foreign load>   the pool an iteration hands to Select
         the proxy loop around Select: one reverse_proxy handler whose upstreams are static (`sta`) or handed
         out afresh for every loop iteration by a dynamic upstream source (`dyn`); policy one of first,
         rr:<c>, lc, rnd, rc:<k>, or `-` = none configured (default); passive health checks:
@@ -71,6 +72,7 @@ import CaddyModel.C08.Model
 import CaddyModel.C08.Keys
 import CaddyModel.C08.Caddyfile
 import CaddyModel.C08.Witness
+import CaddyModel.C08.Dynamic
 
 namespace CaddyModel.C08
 
@@ -200,7 +202,7 @@ def answer (p : Policy) (pool : Pool) (n : Nat) (ds : List Nat) : String :=
     else ",".intercalate ((run n p pool ds).1.map showRes) ++ " c=" ++ counterOf (run n p pool ds).2
       ++ " a=" ++ availBits pool
 
-/-- `h` `q` (GET, held / completing) | `H` `Q` (POST) | `f<k>` -/
+/-- `h` `q` (GET, held / completing) | `H` `Q` (POST) | `f<k>` the backend answers held request k | `x<k>` … its round trip fails -/
 def parseEv (s : String) : Option Ev :=
   match s.toList with
   | ['h'] => some (.arrive true true)
@@ -210,6 +212,7 @@ def parseEv (s : String) : Option Ev :=
   | ['T'] => some .trip
   | ['U'] => some .untrip
   | 'f' :: ks => (num 64 (String.ofList ks)).map .fin
+  | 'x' :: ks => (num 64 (String.ofList ks)).map .fail
   | _ => none
 
 /-- every `f<k>` refers to a held request that has arrived -/
@@ -217,6 +220,7 @@ def scriptOK : List Ev → Nat → Bool
   | [], _ => true
   | .arrive hold _ :: es, n => scriptOK es (if hold then n + 1 else n)
   | .fin k :: es, n => decide (k < n) && scriptOK es n
+  | .fail k :: es, n => decide (k < n) && scriptOK es n
   | _ :: es, n => scriptOK es n
 
 /-- the policies the proxy-loop cases use (no hash, cookie or weighted policies) -/
@@ -240,15 +244,20 @@ def parsePUp (s : String) : Option PUp :=
   | [id, mx, bad] => do
     let id ← num small id
     let mx ← num 1000 mx
-    let b ← (if bad == "o" then some 0 else if bad == "d" then some 1 else if bad == "e" then some 2 else none)
+    let b ← (if bad == "o" || bad == "s" then some 0 else if bad == "d" then some 1 else if bad == "e" then some 2 else none)
     pure ⟨id, mx, b⟩
   | _ => none
 
 def parsePUps (s : String) : Option (List PUp) :=
   if s == "-" then some [] else (s.splitOn ",").mapM parsePUp
 
+/-- the positions of the upstreams of kind `s`: the backend answers with a status listed in `unhealthy_status` -/
+def strikesOf (s : String) : List Nat :=
+  if s == "-" then [] else
+  ((s.splitOn ",").zipIdx.filter (fun x => x.1.endsWith ":s")).map (·.2)
+
 /-- `<unhealthy_request_count>:<fail_duration 0|1>:<max_fails>:<lb_retries>[:<circuit breaker 0|1>[:<lb_retry_match 0-3>]]` -/
-def parsePCfg (dyn : Bool) (s : String) (ups : List PUp) : Option PCfg :=
+def parsePCfg (dyn : Bool) (s : String) (ups : List PUp) (strike : List Nat) : Option PCfg :=
   match s.splitOn ":" with
   | [m, fd, mf, r] => do
     let m ← num 1000 m
@@ -256,7 +265,7 @@ def parsePCfg (dyn : Bool) (s : String) (ups : List PUp) : Option PCfg :=
     let fd ← fd
     let mf ← num 1000 mf
     let r ← num 8 r
-    pure ⟨dyn, m, fd, mf, r, ups, false, 0⟩
+    pure ⟨dyn, m, fd, mf, r, ups, false, 0, strike⟩
   | [m, fd, mf, r, cb] => do
     let m ← num 1000 m
     let fd ← optBool fd
@@ -265,7 +274,7 @@ def parsePCfg (dyn : Bool) (s : String) (ups : List PUp) : Option PCfg :=
     let r ← num 8 r
     let cb ← optBool cb
     let cb ← cb
-    pure ⟨dyn, m, fd, mf, r, ups, cb, 0⟩
+    pure ⟨dyn, m, fd, mf, r, ups, cb, 0, strike⟩
   | [m, fd, mf, r, cb, rm] => do
     let m ← num 1000 m
     let fd ← optBool fd
@@ -275,7 +284,7 @@ def parsePCfg (dyn : Bool) (s : String) (ups : List PUp) : Option PCfg :=
     let cb ← optBool cb
     let cb ← cb
     let rm ← num 3 rm
-    pure ⟨dyn, m, fd, mf, r, ups, cb, rm⟩
+    pure ⟨dyn, m, fd, mf, r, ups, cb, rm, strike⟩
   | _ => none
 
 def showFinal : Final → String
@@ -290,11 +299,13 @@ def showTried : Option Nat → String
 
 def showEvOut : EvOut → String
   | .req tried fin => "/".intercalate (tried.map showTried ++ [showFinal fin])
+  | .late tried fin => "/".intercalate (tried.map showTried ++ [showFinal fin])
   | .done => "ok"
   | .idle => "-"
 
 def evStarved : EvOut → Bool
   | .req _ .starved => true
+  | .late _ .starved => true
   | _ => false
 
 def showNatList (l : List Nat) : String := if l.isEmpty then "-" else ",".intercalate (l.map toString)
@@ -308,6 +319,78 @@ def proxyAnswer (p : Policy) (c : PCfg) (evs : List Ev) (ds : List Nat) : String
       ++ " c=" ++ counterOf (prun c (pinit p c ds) evs).2.pol
       ++ " n=" ++ showNatList (prun c (pinit p c ds) evs).2.loads
       ++ " f=" ++ showNatList (prun c (pinit p c ds) evs).2.fails
+
+/-! ### `dy` lines: the pool an iteration of the proxy loop hands to `Select` -/
+
+/-- `-` or `id:max+id:max+…` -/
+def parseDUps (s : String) : Option (List DUp) :=
+  if s == "-" then some [] else
+  (s.splitOn "+").mapM fun x =>
+    match x.splitOn ":" with
+    | [id, mx] => do pure ⟨.u (← num small id), ← num 1000 mx⟩
+    | _ => none
+
+def tri (s : String) : Option (Option Bool) :=
+  if s == "n" then some none else if s == "t" then some (some true) else if s == "f" then some (some false) else none
+
+/-- `p.<o|e>.<ups>` a probe source answering / failing; `a.<4|6>.<id>.<port|->.<ipv4 n|t|f>.<ipv6 n|t|f>` the `a` source -/
+def parseSrc (s : String) : Option Src :=
+  match s.splitOn "." with
+  | ["p", ok, ups] => do
+    let ups ← parseDUps ups
+    if ok == "o" then pure (.probe true ups) else if ok == "e" then pure (.probe false ups) else none
+  | ["a", fam, id, port, v4, v6] => do
+    let id ← num 9 id
+    let port ← (if port == "-" then some none else (num 65535 port).map some)
+    let v4 ← tri v4
+    let v6 ← tri v6
+    if id = 0 || port == some 0 then none
+    else if fam == "4" then pure (.a false id port v4 v6) else if fam == "6" then pure (.a true id port v4 v6) else none
+  | _ => none
+
+/-- `<unhealthy_request_count>:<fail_duration 0|1>:<max_fails>:<circuit breaker 0|1>` -/
+def parseDCfg (s : String) : Option DCfg :=
+  match s.splitOn ":" with
+  | [m, fd, mf, cb] => do
+    let m ← num 1000 m
+    let fd ← optBool fd
+    let fd ← fd
+    let mf ← num 1000 mf
+    let cb ← optBool cb
+    let cb ← cb
+    pure ⟨m, decide (0 < m) || fd || decide (0 < mf), cb⟩
+  | _ => none
+
+/-- `u<id>` | `a4.<id>.<port>` | `a6.<id>.<port>` -/
+def parseDName (s : String) : Option DName :=
+  match s.toList with
+  | 'u' :: r => (num small (String.ofList r)).map .u
+  | _ =>
+    match s.splitOn "." with
+    | ["a4", id, port] => do pure (.a4 (← num 9 id) (← num 65535 port))
+    | ["a6", id, port] => do pure (.a6 (← num 9 id) (← num 65535 port))
+    | _ => none
+
+/-- `-` or `<name>=<k>+…`: k (1-4) requests are in flight on that address through another handler -/
+def parseForeign (s : String) : Option (List (DName × Nat)) :=
+  if s == "-" then some [] else
+  (s.splitOn "+").mapM fun x =>
+    match x.splitOn "=" with
+    | [n, k] => do
+      let k ← num 4 k
+      if k = 0 then none else pure (← parseDName n, k)
+    | _ => none
+
+def showDName : DName → String
+  | .u id => "u" ++ toString id
+  | .a4 id port => "a4." ++ toString id ++ "." ++ toString port
+  | .a6 id port => "a6." ++ toString id ++ "." ++ toString port
+
+def bit (b : Bool) : String := if b then "1" else "0"
+
+def showHanded (l : List Seen) : String :=
+  (if l.isEmpty then "-" else ",".intercalate (l.map fun x =>
+    showDName x.name ++ ":" ++ toString x.max ++ ":" ++ bit x.passive ++ ":" ++ bit x.avail)) ++ " 503"
 
 /-- `-` or `hex:hex;hex:hex;…` -/
 def parsePairs (s : String) : Option (List (Bytes × Bytes)) :=
@@ -400,6 +483,17 @@ def showRp : Lr RpCfg → String
 def showAh (s : AhState) : String :=
   "h" ++ (if s.healthy then "1" else "0") ++ ":" ++ toString s.passes ++ ":" ++ toString s.fails
 
+def prxLine (mode pol cfg upsS script rnd : String) : String :=
+  match parseProxyPolicy pol, parsePUps upsS, (script.splitOn ",").mapM parseEv, parseRand rnd with
+  | some p, some ups, some evs, some ds =>
+    match parsePCfg (mode == "dyn") cfg ups (strikesOf upsS) with
+    | some c =>
+      if (mode == "dyn" || mode == "sta") && ups.length ≤ 16 && decide (ups.map (·.id)).Nodup
+          && evs.length ≤ 32 && scriptOK evs 0 then proxyAnswer p c evs ds
+      else "bad-op"
+    | none => "bad-op"
+  | _, _, _, _ => "bad-op"
+
 def handle : List String → String
   | ["ah", p, f, script] =>
     match num 20 p, num 20 f, (script.toList.mapM fun c => if c = 'p' then some true else if c = 'f' then some false else none) with
@@ -450,15 +544,20 @@ def handle : List String → String
       | some v => (match tokenIdx v with | some j => toString j | none => "fb")
       | none => "fb"
     | _, _ => "bad-op"
-  | ["prx", mode, pol, cfg, ups, script, rnd] =>
-    match parseProxyPolicy pol, parsePUps ups, (script.splitOn ",").mapM parseEv, parseRand rnd with
-    | some p, some ups, some evs, some ds =>
-      match parsePCfg (mode == "dyn") cfg ups with
-      | some c =>
-        if (mode == "dyn" || mode == "sta") && ups.length ≤ 16 && decide (ups.map (·.id)).Nodup
-            && evs.length ≤ 32 && scriptOK evs 0 then proxyAnswer p c evs ds
-        else "bad-op"
-      | none => "bad-op"
+  | ["prx", mode, pol, cfg, upsS, script, rnd] => prxLine mode pol cfg upsS script rnd
+  -- a trailing `c`: the same configuration delivered as a Caddyfile — the same handler
+  | ["prx", mode, pol, cfg, upsS, script, rnd, "c"] => prxLine mode pol cfg upsS script rnd
+  | ["dy", cfg, static, kind, srcs, via, foreign] =>
+    -- `via`: the configuration is delivered as JSON (j) or as a Caddyfile (c, p) — the same handler either way
+    match parseDCfg cfg, parseDUps static, (if srcs == "-" then some [] else (srcs.splitOn ";").mapM parseSrc), parseForeign foreign with
+    | some c, some st, some l, some fo =>
+      if st.length ≤ 16 && l.length ≤ 8 && fo.length ≤ 4 && (via == "j" || via == "c" || via == "p") then
+        match kind, l with
+        | "none", [] => showHanded (handed c fo st .none)
+        | "one", [x] => showHanded (handed c fo st (.one x))
+        | "multi", l => showHanded (handed c fo st (.multi l))
+        | _, _ => "bad-op"
+      else "bad-op"
     | _, _, _, _ => "bad-op"
   | ["sel", pol, pool, n, v, rnd] =>
     match parsePolicy pol, parsePool pool, num 64 n, num small v, parseRand rnd with
